@@ -12,10 +12,16 @@ inputs and of the prover-supplied hint `h = some (flag, y)`; the first component
 * `decompress_sound_partial`: for s ≠ ±1 … i.e. whenever the discriminant argument is non-zero, a satisfied decode
   gadget means the native specification decodes s, to the point the gadget outputs.  FULL STATEMENT (no side
   condition) is false: `decode_unsound_at_minus_one` exhibits the satisfying forged hint at s = q - 1.
+* `compress_sound`: the encode gadget is sound for EVERY hint and every representative of every group element (the
+  isqrt weakness at 0 is harmless here: the discriminant vanishes only at x = 0, where the output is 0 whatever v is).
+* `elligator_sound`: the Elligator gadget is sound for every input and every hint (its isqrt argument never vanishes).
+  Both by patching the square-root routine with the hint (Lemmas/Gadgets.lean) and re-using "= specification".
 -/
 import Decaf.BuildsCmd
 import Decaf.Lemmas.RoundTrip
 import Decaf.Model.R1cs
+import Decaf.Lemmas.Gadgets
+import Decaf.Props.C07
 
 namespace C14
 open Model Edwards Decaf
@@ -175,6 +181,44 @@ theorem minus_one_is_rejected_natively {sr : SR} (h : SRContract sr) (bytes : Li
       have hs : (((leBytes bytes : ℕ)) : Fq) = -1 := by rw [hv]; exact cast_q_sub_one
       apply one_sub_sq_ne_zero_of_root ht2
       rw [hs]; ring
+
+/-- **the encode gadget is sound**: whatever hint the prover supplies, a satisfied system outputs the native encoding —
+for every affine representative (x, y) of every group element -/
+theorem compress_sound {x y : ℕ} (hx : x < q) {P : E} (hr : ERepr (Ext.ofAffine (x, y)) P) (he : Point.IsEven P)
+    (f : Bool) (v : ℕ) (hv : v < q) (hsat : (R1cs.compress x y (some (f, v))).1 = true) :
+    Ext.encodeField sqrtRatioArk (Ext.ofAffine (x, y)) = some (R1cs.compress x y (some (f, v))).2 := by
+  have hc : Ext.ofAffine (x, y) = ⟨x, y, 1, fmul q x y⟩ := rfl
+  rw [hc] at hr ⊢
+  rw [compress_gadget] at hsat ⊢
+  simp only [] at hsat ⊢
+  by_cases hD : encDen ⟨x, y, 1, fmul q x y⟩ = 0
+  · have hx0 : x = 0 := x_eq_zero_of_encDen_eq_zero hx hr hD
+    obtain ⟨f', v', hs, _⟩ := sarkar_contract.total 1 (encDen ⟨x, y, 1, fmul q x y⟩) one_lt_q (encDen_lt _)
+    rw [encodeField_of_sr hs, encOut_of_X_zero (c := ⟨x, y, 1, fmul q x y⟩) hx0, encOut_of_X_zero (c := ⟨x, y, 1, fmul q x y⟩) hx0]
+  · obtain ⟨hf, hval⟩ := isqrt_sound (encDen_lt _) hD f v hv hsat
+    have hp := srPatch_contract hD hv hf hval
+    rw [C03.encode_respects_element sarkar_contract hp hr hr he (Point.Coset.refl P)]
+    exact encodeField_of_sr (srPatch_hit _ _ _)
+
+/-- **the Elligator gadget is sound**: whatever hint the prover supplies, a satisfied system outputs the affine
+coordinates of the point the native map returns, for every input -/
+theorem elligator_sound (r0 : ℕ) (f : Bool) (v : ℕ) (hv : v < q) (hsat : (R1cs.elligator r0 (some (f, v))).1 = true) :
+    ∃ c P, elligator sqrtRatioArk ZETA r0 = some c ∧ ERepr c P ∧
+      P.x = (((R1cs.elligator r0 (some (f, v))).2.1 : ℕ) : Fq) ∧ P.y = (((R1cs.elligator r0 (some (f, v))).2.2 : ℕ) : Fq) := by
+  rw [elligator_gadget] at hsat ⊢
+  simp only [Bool.and_eq_true] at hsat
+  obtain ⟨⟨hi, _⟩, _⟩ := hsat
+  obtain ⟨hf, hval⟩ := isqrt_sound (ellArg_lt r0) (ellArg_ne_zero r0) f v hv hi
+  have hp := srPatch_contract (ellArg_ne_zero r0) hv hf hval
+  obtain ⟨c1, p1, h1, r1, s1, _⟩ := C07.elligator_eq_spec hp r0
+  obtain ⟨c2, p2, h2, r2, s2, _⟩ := C07.elligator_eq_spec sarkar_contract r0
+  obtain ⟨ex, ey⟩ := ElligatorTo.unique s1 s2
+  have hpp : p2 = p1 := by ext <;> assumption
+  rw [elligator_of_sr (srPatch_hit _ _ _)] at h1
+  injection h1 with h1
+  subst h1
+  obtain ⟨_, _, hxx, hyy⟩ := ell_affine r1
+  exact ⟨c2, p2, h2, r2, by rw [hpp]; exact hxx, by rw [hpp]; exact hyy⟩
 
 end C14
 
